@@ -35,20 +35,26 @@ ToObs(L) ==
    some |-> L.some, rtime |-> L.rtime, steps |-> L.steps,
    exc |-> L.exc, eobj |-> L.eobj, eidx |-> L.eidx, log |-> L.log]
 
+NoGuards(lg) == SelectSeq(lg, LAMBDA e : e.k # "guard")
+Guards(lg) == Range(SelectSeq(lg, LAMBDA e : e.k = "guard"))
+
 (* the operational model, one call *)
 ModelCall(o) ==
-  IF o.op = "queue" THEN [S |-> QueueExternal(M, o.ev, o.par, o.dl), same |-> TRUE]
+  IF o.op = "queue" THEN [S |-> QueueExternal(M, o.ev, o.par, o.dl), same |-> TRUE, pred |-> <<>>]
   ELSE IF o.op = "exec" THEN
     LET orc == [gv |-> o.gv, cfail |-> o.cfail, mfail |-> o.mfail]
         A   == MacroStep(c, Tr.opt, orc, M, o.clk)
         St(s) == [conf |-> s.conf, final |-> Final(s), time |-> s.time, x |-> s.x]
         same == /\ o.exc = A.exc
                 /\ o.post = St(A.S)
-                /\ o.log = A.log
+                /\ NoGuards(o.log) = NoGuards(A.log)     \* the order of guard evaluation inside a
+                /\ Guards(o.log) = Guards(A.log)         \* priority class is declaration order: free
                 /\ (A.exc = "" => (o.steps = A.steps /\ o.some = (A.steps # <<>>)))
                 /\ (A.exc # "" => (o.eobj = A.eobj /\ o.eidx = A.eidx))
-    IN [S |-> A.S, same |-> same]
-  ELSE [S |-> M, same |-> TRUE]
+    IN [S |-> A.S, same |-> same,
+        pred |-> [exc |-> A.exc, conf |-> SetToSeq(A.S.conf), x |-> A.S.x, steps |-> A.steps,
+                  log |-> A.log, eobj |-> A.eobj, eidx |-> A.eidx]]
+  ELSE [S |-> M, same |-> TRUE, pred |-> <<>>]
 
 TInit ==
   /\ tid \in DOMAIN Traces
@@ -60,13 +66,14 @@ TInit ==
 Visit(k) ==
   LET N == Tr.nodes[k]
       o == ToObs(N.line)
-      r == IF div THEN [S |-> M, same |-> TRUE] ELSE ModelCall(o)
+      r == IF div THEN [S |-> M, same |-> TRUE, pred |-> <<>>] ELSE ModelCall(o)
       b == Bad(c, G, o)
   IN /\ nd' = k
      /\ G' = GhostUpdate(c, G, o)
      /\ M' = r.S
      /\ div' = (div \/ ~r.same)
-     /\ PrintT(ToJson([uid |-> N.uid, div |-> IF r.same THEN 0 ELSE 1, bad |-> SetToSeq(b)]))
+     /\ PrintT(ToJson([uid |-> N.uid, div |-> IF r.same THEN 0 ELSE 1, bad |-> SetToSeq(b),
+                        pred |-> IF r.same THEN <<>> ELSE r.pred]))
      /\ UNCHANGED tid
 
 TNext ==
